@@ -1714,13 +1714,10 @@ def _should_create_value_info_for_value(value: _protocols.ValueProtocol) -> bool
     Returns:
         True if value info should be created for the value.
     """
-    # No need to serialize value info if it is not set
-    if (
-        value.shape is None
-        and value.type is None
-        and not value.metadata_props
-        and not value.doc_string
-    ):
+    # No need to serialize value info if it is not set. A shape cannot be expressed
+    # without a type (serialize_shape_into skips it), so a shape alone does not count:
+    # the entry would carry nothing but the name and vanish on the next round trip.
+    if value.type is None and not value.metadata_props and not value.doc_string:
         return False
     if not value.name:
         logger.debug("Did not serialize '%s' because its name is empty", value)
